@@ -506,4 +506,4 @@ func genShape(repo string) (*leanFile, error) {
 	return lf, nil
 }
 
-func init() { extraGens = append(extraGens, genShape) }
+func init() { extraGens = append(extraGens, namedGen{"Shape.lean", genShape}) }
